@@ -18,8 +18,8 @@ def _mix(d):
     return ";".join("%s:%d" % kv for kv in d.items())
 
 
-def _n(tier, quick, thorough, scale):
-    return max(50, int((quick if tier == "quick" else thorough) * scale))
+def _n(tier, quick, thorough, scale, floor=50):
+    return max(floor, int((quick if tier == "quick" else thorough) * scale))
 
 
 def hist_job(prop, classes, mix, tier, scale, quick, thorough, label, shards=None, max_size=None, **cfg):
@@ -131,20 +131,21 @@ def jobs_C08(tier, scale):
     hmix = dict(add=40, add1=5, recip=4, rm=18, rmk=5, setl=4, setm=5, setw=4, rmloops=4, rmvtx=5, clear=3, resize=6)
     hist = hist_job("C08", cl, hmix, tier, scale, 3000, 80000,
                     "histories: edges()/vertex iteration and everything built on it observed after every 1st-5th mutation (an iteration must not depend on an earlier one)", sparse_pct=70)
+    ring = graph_job("C08", "iter", _classes(ALL8, ["int"]), tier, scale, 40, 800, "graphs with 150-200 vertices and 6000-12000 edges (each vertex joined to the next 40-60)", ring_pct=100, max_size=20)
     if tier == "quick":
-        return [enum_job("iter", "graphs", dict(prop="C08", classes=cl, dmin=0, dmax=3, umin=0, umax=4, orders=3, pads=pads, writers_n=2), tier,
+        return [ring, enum_job("iter", "graphs", dict(prop="C08", classes=cl, dmin=0, dmax=3, umin=0, umax=4, orders=3, pads=pads, writers_n=2), tier,
                          "every directed graph on 0..3 and undirected on 0..4 vertices x 3 insertion orders x 4 isolated-vertex paddings, 10 class/label configs"), sparse, hist]
-    return [sparse, hist, enum_job("iter", "graphs", dict(prop="C08", classes=cl, dmin=0, dmax=3, umin=0, umax=4, orders=4, pads=pads, writers_n=3), tier, "small scopes, all paddings"),
+    return [sparse, hist, ring, enum_job("iter", "graphs", dict(prop="C08", classes=cl, dmin=0, dmax=3, umin=0, umax=4, orders=4, pads=pads, writers_n=3), tier, "small scopes, all paddings"),
             enum_job("iter", "graphs", dict(prop="C08", classes=_classes(["DS", "DL", "DM", "DW"], ["int"]), dmin=4, dmax=4, orders=2, pads="0:0;1:1", writers_n=-1), tier,
                      "every directed graph on 4 vertices (65536) x 2 orders x 2 paddings x 4 classes"),
             enum_job("iter", "graphs", dict(prop="C08", classes=_classes(["US", "UL", "UM", "UW"], ["int"]), umin=5, umax=5, orders=2, pads="0:0;1:1", writers_n=-1), tier,
                      "every undirected graph on 5 vertices (32768) x 2 orders x 2 paddings x 4 classes")]
 
 
-def graph_job(prop, executor, classes, tier, scale, quick, thorough, label, config="san", max_size=None, **cfg):
+def graph_job(prop, executor, classes, tier, scale, quick, thorough, label, config="san", max_size=None, floor=50, **cfg):
     c = dict(prop=prop, classes=classes)
     c.update({k: str(v) for k, v in cfg.items()})
-    return dict(engine="pbt", executor=executor, config=config, gen="graph", cfg=c, cases=_n(tier, quick, thorough, scale), shards=8 if tier == "quick" else 16,
+    return dict(engine="pbt", executor=executor, config=config, gen="graph", cfg=c, cases=_n(tier, quick, thorough, scale, floor), shards=8 if tier == "quick" else 16,
                 max_size=max_size or (60 if tier == "quick" else 100), label=label)
 
 
@@ -154,6 +155,8 @@ def jobs_C09(tier, scale):
     jobs = [hist_job("C09", _classes(["DS", "US", "DL", "UL"], ["int", "string", "struct"]), hmix, tier, scale, 4000, 100000,
                      "histories with reversals and conversions between the mutations (a conversion computed earlier must not influence a later one)"),
             graph_job("C09", "conv", cl, tier, scale, 12000, 300000, "generated graphs (loops, reciprocal pairs with different labels, repeated pairs, isolated vertices)", nmax=9, pads=1),
+            graph_job("C09", "conv", cl, tier, scale, 40, 800, "graphs with 66-100 vertices and vertices of degree above 64", big_pct=100, max_size=30),
+            graph_job("C09", "conv", cl, tier, scale, 8, 160, "graphs with 150-200 vertices and 6000-12000 edges", ring_pct=100, max_size=20, floor=8),
             enum_job("conv", "graphs", dict(prop="C09", classes=_classes(["DS", "DL", "DM", "DW"], ["int", "struct"]), dmin=0, dmax=2 if tier == "quick" else 3, orders=2, pads="0:0;1:1"), tier,
                      "every directed graph on <=%d vertices" % (2 if tier == "quick" else 3)),
             enum_job("conv", "graphs", dict(prop="C09", classes=_classes(["US", "UL", "UM", "UW"], ["int", "struct"]), umin=0, umax=3 if tier == "quick" else 4, orders=2, pads="0:0;1:1"), tier,
@@ -226,7 +229,9 @@ def jobs_C13(tier, scale):
     cl = _classes(["DS", "US", "DL", "UL"], ["int", "double", "string", "struct"])
     tf = dict(engine="pbt", executor="text", config="san", gen="textfile", cfg=dict(classes="DS:none;US:none;DL:string;UL:string;DL:int;UL:int", modes="indexfile;namefile"),
               cases=_n(tier, 6000, 150000, scale), shards=8 if tier == "quick" else 16, max_size=80, label="files generated from the documented grammar vs an independent reference parser")
-    jobs = [graph_job("C13", "text", cl, tier, scale, 6000, 150000, "write/load round trips (labels none/int/double/string/struct, indices up to 14)", nmax=14, extra="mode roundtrip", max_size=60), tf]
+    jobs = [graph_job("C13", "text", cl, tier, scale, 6000, 150000, "write/load round trips (labels none/int/double/string/struct, indices up to 14)", nmax=14, extra="mode roundtrip", max_size=60), tf,
+            graph_job("C13", "text", _classes(["DS", "US", "DL", "UL"], ["int", "string"]), tier, scale, 48, 960, "round trips of files with 6000-12000 lines (150-200 vertices, each joined to the next 40-60)",
+                      ring_pct=100, extra="mode roundtrip", max_size=20)]
     # byte-level differential: whenever the reference parser classifies the input as well-formed, loader and reference must agree
     jobs.append(fuzz_job("text", "rawtext", "C13", tier, scale, 160000, 8000000, "libFuzzer byte-level differential against the reference parser (seed corpus + dictionary / empty corpus)", shards=4 if tier == "quick" else 16))
     return jobs
